@@ -354,6 +354,24 @@ fn run_case<const H: usize>(rep: &mut Report, args: &Args, case: Case, flips_bud
             let mut fresh = Reader::<H>::open(&path, None).unwrap();
             cx.judge_damaged::<H>("shortened", region(&cx.r, H, c), json!({"kind": "shortened", "new_len": c, "record_off": cx.r.off}), &mut fresh, &cx.orig[..c as usize].to_vec());
         }
+        // a writer reopened on the shortened file resumes at the cut record as well
+        if cut % 7 == 2 || cuts.len() < 64 {
+            cx.rep.evaluations += 1;
+            let (p2, start, roff) = (path.clone(), cx.case.start, cx.r.off);
+            let damage = json!({"kind": "shortened", "new_len": c, "record_off": roff});
+            match std::panic::catch_unwind(|| Writer::<H>::open(&p2, seg_size, start).map(|w| w.write_offset())) {
+                Err(_) => {
+                    let m = vpc::last_panic();
+                    cx.viol(format!("C17:panic:writer-open:{}", panic_site(&m)), format!("Writer::open on a shortened segment panicked: {m}"), damage);
+                }
+                Ok(Err(e)) => cx.viol("C17:reopen:error:shortened-file".into(), format!("Writer::open on a segment file shortened to {c} bytes failed: {e}"), damage),
+                Ok(Ok(wo)) if wo != roff => cx.viol("C17:reopen:wrong-resume-offset".into(), format!("writer reopened on a file shortened to {c} bytes resumes at {wo}, expected {roff} (start of the cut record)"), damage),
+                Ok(Ok(_)) => {}
+            }
+            cx.rep.count("reopens_on_shortened_file", 1);
+            f.set_len(cx.file_len).unwrap();
+            f.write_all_at(&cx.orig, 0).unwrap();
+        }
         f.set_len(cx.file_len).unwrap();
         f.write_all_at(&cx.orig[c as usize..], c).unwrap();
     }
